@@ -350,6 +350,47 @@ theorem repaired_rejects_zero_matrix_dim2 (g : Lvl → RawPk → RawSig → Bool
 example : testOrderTwoF 130 (pt 130 3 2) ∧ testOrderTwoF 130 (pt 130 4 5) ∧ testOrderTwoF 130 (pt 130 3 2 - pt 130 4 5) :=
   (kernel_orders_iff_det_odd 130 (by norm_num) 3 4 2 5).2 (by decide)
 
+/-! ### why each order test matters differently (measured behaviour of the chain, stated as hypotheses)
+
+Measured on the real code (tools/props/c02.py, families with valid public hints; seeded change C02-m2):
+  * T1.P1 = O (first column of the matrix zero) and the T1.P1 test missing: the (2,2)-chain degenerates to the all-zero theta
+    null point, `splitting_comput` reports it as split, the recovered commitment is the record (A : C) = (0 : 0) whose encoded
+    j-invariant is 0 — so the oracle returns `split = true` and `h = H(0 ‖ j(pk) ‖ m)`, a value computable in advance;
+  * T2.P1 = O or T1−T2 = O on the first factor, or a short / singular point on the second factor, with the corresponding test
+    missing: the chain reports "not split" (`split = false`), every such run was rejected.
+The first item turns into a forgery in the model (`forgeable_if_T1P1_unchecked`), the second into a rejection
+(`rejected_if_not_split`); that the chain behaves this way is an observation about the theta formulas, not a theorem. -/
+
+/-- the masked decision with all six tests is the decision of the current code -/
+theorem verifyDim2Masked_all (g : Lvl → RawPk → RawSig → Bool) (K : Lvl) (pk : RawPk) (s : RawSig) (o : OracleDim2) :
+    verifyDim2Masked g OrderMask.all K pk s o = verifyDim2 g true K pk s o := by
+  simp [verifyDim2Masked, verifyDim2, OrderMask.all, OracleDim2.ordAll, Bool.and_assoc]
+
+/-- a verifier that performs every test except the one on T1.P1 accepts the signature with first column zero and the
+    challenge precomputed for the degenerate commitment — *given* the measured behaviour of the degenerate chain
+    (`hdeg`: the other five tests pass, the chain "splits", the recomputed hash is the constant `h0`) -/
+theorem forgeable_if_T1P1_unchecked (g : Lvl → RawPk → RawSig → Bool) (K : Lvl) (pk : RawPk) (s : RawSig) (o : OracleDim2) (h0 : Int)
+    (hg : g K pk s = true) (htrl : s.trl ≤ 0 ∨ o.kerOk = true) (hb : s.challB = 0) (hch : s.chall = h0)
+    (hdeg : o.t2p1 = true ∧ o.t12p1 = true ∧ o.t1p2 = true ∧ o.t2p2 = true ∧ o.t12p2 = true ∧ o.split = true ∧ o.h = h0) :
+    verifyDim2Masked g ⟨false, true, true, true, true, true⟩ K pk s o = true := by
+  obtain ⟨a, b, c, d, e, f, hh⟩ := hdeg
+  have hk : (decide (s.trl ≤ 0) || o.kerOk) = true := by
+    rcases htrl with h | h
+    · simp [h]
+    · simp [h]
+  simp [verifyDim2Masked, hg, hk, a, b, c, d, e, f, hh, challEqDim2, hb, hch]
+
+/-- …whereas a chain that reports "not split" is rejected whatever tests are performed -/
+theorem rejected_if_not_split (g : Lvl → RawPk → RawSig → Bool) (mk : OrderMask) (K : Lvl) (pk : RawPk) (s : RawSig)
+    (o : OracleDim2) (h : o.split = false) : verifyDim2Masked g mk K pk s o = false := by
+  simp [verifyDim2Masked, h]
+
+/-- …and with the T1.P1 test in place the first-column-zero family is rejected (sound oracle: T1.P1 = O has not full order) -/
+theorem first_column_zero_rejected (g : Lvl → RawPk → RawSig → Bool) (K : Lvl) (pk : RawPk) (s : RawSig) (o : OracleDim2)
+    (k : ℕ) (hk : 1 ≤ k) (hs : OracleSoundP1 k s o) (h0 : s.m00 = 0 ∧ s.m10 = 0) :
+    verifyDim2 g true K pk s o = false :=
+  structural_forgery_rejected_trl0 g K pk s o k hk hs (by rw [h0.1, h0.2]; simp)
+
 /-! ## 5. NIST-style entry points -/
 
 /-- every entry point of src/sqisign.c that is still a stub returns a non-zero value (failure) -/
